@@ -177,7 +177,7 @@ def noiseAssign (a : Args) : String :=
 def noiseUnwrap (a : Args) : String :=
   let kinds := (splitChar '.' (get a "ops")).map parseKind
   let ns := (splitChar '+' (get a "noise")).map parseNoise
-  let r := unwrapList kinds ns
+  let r := if get a "single" = "1" then unwrapSingle kinds (ns.headD .none) else unwrapList kinds ns
   let showK : Kind → String
     | .h => "h" | .s => "s" | .sdg => "sdg" | .x => "x" | .y => "y" | .z => "z" | .identity => "identity" | _ => "?"
   s!"ok seq={String.intercalate "," (r.map fun (k, n) => showK k ++ "=" ++ showNoise n)}"
